@@ -42,6 +42,16 @@ CHECKS['C20'] = dict(
         'recorded observation, outside the check); Coq kernel; translator; extraction; gcc.',
    technique='Coq proof (ring invariant by induction, refinement to last-16-puts spec), differential correspondence',
    design='4/C20')
+CHECKS['C18'] = dict(
+   text='Coq theorems for every 32-bit server address and every netmask /8../30 about a Gallina model of init_users computed exactly as '
+        'the C does on x86-64 (byte-swapped in_addr_t arithmetic, the one-time skip): session count = min(16, size-3); every assigned address '
+        'is netaddr+k with 1 <= k <= size-2, strictly increasing (distinct), never the server address, no carry out of the low octet; '
+        'find_user_by_ip returns exactly the least live/authenticated/enabled owner, unique for pool addresses; allocation takes exactly '
+        'the first free-or-expired slot. USERS/60/3 and the 8..30 range check are re-read from the source.',
+   note='Trusts: little-endian x86-64 representation of in_addr_t, inet_addr("0.0.0.k") = k<<24 (k <= 17), calloc zeroing; the netmask range '
+        'check sits in main() and is tied by the translator only; Coq kernel; extraction; gcc.',
+   technique='Coq proof (arithmetic characterisation of byte swap/masks, induction over the assignment loop), differential correspondence exhaustive for /16../30 at thorough tier',
+   design='4/C18')
 NOT_YET = {}
 
 def main():
